@@ -145,3 +145,75 @@ class SendFfd:
     def ensures_sends_as_many_blocks_as_flood_fill_aplx_announces(self, aplx_data, local_block, local_pos):
         L = self.scp_data_length
         return local_block == (seq_len(aplx_data) + L - 1) // L and local_pos == seq_len(aplx_data)
+
+
+# ---- one flood fill, start to end (the (filename, targets) form of flood_fill_aplx) ----------------------
+from pyvc.values import TTuple, TList, ObjV as _ObjV   # noqa: E402
+
+MCF = TRec("MachineController", scp_data_length=TInt(4, 1024), _nn_id=TInt(0, 126))
+FILL = TTuple(TInt(0, 2 ** 32 - 1), TInt(1, 2 ** 18 - 1))
+
+
+def _rec(name):
+    def h(E, obj, args, kwargs, st, node):
+        s = st.copy()
+        s.trace = ListV(s.trace.items + ((name,) + tuple(args),))
+        return [(s, NONE, None)]
+    return h
+
+
+def _compress(E, args, kwargs, st, node):
+    # regions.compress_flood_fill_regions(targets): the (region, core mask) pairs (property C12)
+    return [(st, st.env["g_fills"])]
+
+
+def _open(E, args, kwargs, st, node):
+    return [(st, _ObjV("File", {}))]
+
+
+def _file_enter(E, obj, args, kwargs, st, node):
+    return [(st, obj, None)]
+
+
+def _file_exit(E, obj, args, kwargs, st, node):
+    return [(st, NONE, None)]
+
+
+def _file_read(E, obj, args, kwargs, st, node):
+    return [(st, st.env["g_binary"], None)]
+
+
+def _rsf(E, obj, args, kwargs, st, node):
+    s = st.copy()
+    s.trace = ListV(s.trace.items + (("read_struct_field",) + tuple(args),))
+    return [(s, st.env["g_base"], None)]
+
+
+@contract("rig/machine_control/machine_controller.py::MachineController.flood_fill_aplx")
+class FloodFillAplx:
+    """called as flood_fill_aplx(filename, targets, app_id=..., wait=...); the region list has two
+    pairs (any number behaves alike: one _send_ffcs per pair, in the order given)"""
+    properties = ("C09",)
+    params = dict(self=MCF, args=TTuple(TInt(), TInt()), g_fills=TList(FILL, FILL), g_binary=BYTES, g_base=TInt(0, 2 ** 32 - 1),
+                  g_app_id=TInt(0, 255), g_wait=TBool())
+    externals = {"MachineController._send_ffs": _rec("ffs"), "MachineController._send_ffcs": _rec("ffcs"),
+                 "MachineController._send_ffd": _rec("ffd"), "MachineController._send_ffe": _rec("ffe"),
+                 "MachineController.read_struct_field": _rsf, "def:compress_flood_fill_regions": _compress, "open": _open, "File.__enter__": _file_enter,
+                 "File.__exit__": _file_exit, "File.read": _file_read}
+    options = {"decorators": {"use_contextual_arguments": "identity"}, "kwargs": {"app_id": "g_app_id", "wait": "g_wait"}}
+    assumptions = ["ContextMixin.use_contextual_arguments treated as the identity (C18); the file's content, the region list (C12) and sv.sdram_sys are ghost inputs; _send_ffs/_send_ffcs/_send_ffd/_send_ffe are recorded here and verified by their own contracts"]
+
+    def native(self, args, g_fills, g_binary, g_base, g_app_id, g_wait):
+        raise __import__("pyvc.replay", fromlist=["OutsideHarness"]).OutsideHarness()
+
+    def ensures_start_selects_data_end_in_order(self, g_fills, g_binary, g_base, g_app_id, g_wait, _trace):
+        L = self.scp_data_length
+        pid = 2 * (self._nn_id + 1 if self._nn_id < 126 else 1)
+        fr = 0x3f * 256 + 0x18
+        return (len(_trace) == 6
+                and _trace[0] == ("ffs", pid, (seq_len(g_binary) + L - 1) // L, fr)
+                and _trace[1] == ("ffcs", g_fills[0][0], g_fills[0][1], fr)
+                and _trace[2] == ("ffcs", g_fills[1][0], g_fills[1][1], fr)
+                and _trace[3][0] == "read_struct_field"
+                and _trace[4][0] == "ffd" and _trace[4][1] == pid and _trace[4][2] == g_binary and _trace[4][3] == g_base
+                and _trace[5] == ("ffe", pid, g_app_id, (1 if g_wait else 0), fr))
